@@ -252,7 +252,7 @@ echs_evstrm_mux(echs_evstrm_t s, ...)
 		return NULL;
 	}
 	/* otherwise we've got at least 1 argument */
-	strm = malloc((allocz = 16U) + sizeof(*strm));
+	strm = malloc((allocz = 16U) * sizeof(*strm));
 	if (UNLIKELY(strm == NULL)) {
 		return NULL;
 	}
@@ -290,7 +290,7 @@ echs_evstrm_mux_clon(echs_evstrm_t s, ...)
 		return NULL;
 	}
 	/* otherwise we've got at least 1 argument */
-	strm = malloc((allocz = 16U) + sizeof(*strm));
+	strm = malloc((allocz = 16U) * sizeof(*strm));
 	if (UNLIKELY(strm == NULL)) {
 		return NULL;
 	}
